@@ -89,7 +89,9 @@ def _cons(x=None, y=None):
 STATIC = {'known': {'fa': 'pqr', 'sub.fb': 'pq', 'm1.K': 'pq', 'cons': 'xy'},
           # late_fn is registered by `import c15late` (LATE_IMPORT): unknown in the statements
           # before that import, known in those after it
-          'unknown': ['unk', 'pkg.unk2', 'Unk3', 'late_fn'],
+          # ('xunk' ends with 'unk' and 'unk2' is the tail of 'pkg.unk2': a listed name covers
+          # exactly the spelling listed, not names that merely end like it)
+          'unknown': ['unk', 'pkg.unk2', 'Unk3', 'late_fn', 'xunk', 'unk2'],
           'header': []}
 LATE_IMPORT = 'import c15late'
 LATE_NAME = 'late_fn'
